@@ -309,3 +309,12 @@ class BytesV(OpaqueV):
     def __init__(self, b):
         self.what = "bytes"
         self.b = b
+
+
+class CharIntV(IntV):
+    """a char taken out of a written literal: its code point plus the literal's own description of it"""
+    __slots__ = ("src",)
+
+    def __init__(self, t, src):
+        IntV.__init__(self, t, 32, False)
+        self.src = src
